@@ -375,6 +375,7 @@ def gen_scenarios(spec, rng, n):
             if rng.random() < 0.45:
                 fs, s, m = rng.choice(cands)      # else: same RPC again (state carried between calls)
             ops.append(gen_op(spec, rng, codec, fs, s, m, f"o{j}"))
+        engine.add_in_place_edits(rng, [{"ops": ops}])
         out.append({"client": "rest", "actors": [{"start": 0.0, "ops": ops}], "jitter_default": 0.0})
     return out
 
